@@ -51,7 +51,7 @@ ASSUMPTIONS = [
     "generator state and histories unchanged); clone()/from_ptychography() are excluded because clone's save/reload fallback draws its temp-file name from the object's generator",
     "soft-constraint weights are zero where the reported loss is compared with the mean of the per-batch data losses",
 ]
-BUDGET = {"quick": {"soft_s": 100, "workers": 14}, "thorough": {"soft_s": 540, "workers": 14}}
+BUDGET = {"quick": {"soft_s": 300, "workers": 14}, "thorough": {"soft_s": 1200, "workers": 14}}
 MIN_EVALUATIONS = {"quick": 60, "thorough": 300}
 # deciding monitors at the level of the property's observe_at (public batcher API, loss histories); the in-situ wrappers on internal names are additional
 # observability: when one of them cannot be attached the sub-monitor is skipped and listed under hooks_missing (DESIGN section 1, robustness)
